@@ -487,6 +487,43 @@ def _generate(api):
     if not mm_:
         raise U("main: expected `if let Err(e) = process() { eprintln!(\"Error: {}.\", e); std::process::exit(N); }`")
     L.append("Definition c20_main_err_exit : Z := %s.   (* main: std::process::exit(N) after eprintln!(\"Error: {}.\", e) *)" % mm_.group(1))
+    # ---------------------------------------------------------------- --languages: what the two tools do to each list item (round 5, seed C20-16)
+    for tool, tsrc in (('resvg', src), ('usvg', usrc)):
+        lp, lr, lb = rs.find_fn(tsrc, 'parse_languages')
+        lbn = re.sub(r"\s+", " ", lb)
+        lm = re.search(r"for (\w+) in s\.split\('(.)'\) \{", lbn)
+        if not lm:
+            raise U("%s parse_languages: `for <item> in s.split('<sep>') {` not found" % tool)
+        var, sep = lm.group(1), lm.group(2)
+        l0 = lm.end() - 1
+        d_, j_ = 0, l0
+        while True:
+            if lbn[j_] == '{':
+                d_ += 1
+            elif lbn[j_] == '}':
+                d_ -= 1
+                if d_ == 0:
+                    break
+            j_ += 1
+        loop = lbn[l0 + 1:j_]
+        if len(re.findall(r"\.push\(", loop)) != 1:
+            raise U("%s parse_languages: expected exactly one push in the loop" % tool)
+        # every method applied (directly or through a rebinding `let <var> = <var>.m1().m2();`) to the item, in source order
+        ops = []
+        for chain in re.findall(r"\b%s((?:\s*\.\s*\w+\((?:[^()]*)\))+)" % re.escape(var), loop):
+            ops += re.findall(r"\.\s*(\w+)\(", chain)
+        uncond = not re.search(r"\b(if|match|continue|break|retain|dedup)\b", loop) and not re.search(r"\b(sort|dedup|retain|reverse)\w*\(", lbn)
+        tail_ok = bool(re.search(r"\} if langs\.is_empty\(\) \{ return Err\(\"languages list cannot be empty\"\.to_string\(\)\); \} Ok\(langs\) \}$", lbn.strip()))
+        L.append("(* %s :: parse_languages: separator, the methods applied to every item, is every item kept (no filter / dedup / reorder) *)"
+                 % (REL if tool == 'resvg' else REL_USVG))
+        L.append("Definition %s_lang_separator : string := %s." % (tool, coq_str(sep)))
+        L.append("Definition %s_lang_item_ops : list string := [%s]." % (tool, "; ".join(coq_str(o) for o in ops)))
+        L.append("Definition %s_lang_all_items_kept : bool := %s." % (tool, 'true' if (uncond and tail_ok) else 'false'))
+        # the parsed list reaches usvg::Options::languages unchanged
+        passed = len(re.findall(r"\blanguages: args\.languages(?:\.clone\(\))?,", tsrc)) == 1 and \
+            len(re.findall(r"opt_value_from_fn\(\"--languages\", parse_languages\)\?\s*\.unwrap_or(?:_else)?\((?:\|\| )?vec!\[\"en\"\.to_string\(\)\]\)", tsrc)) == 1
+        L.append("Definition %s_lang_passed_unchanged : bool := %s.   (* `--languages` -> parse_languages -> Options { languages: args.languages } ; default [\"en\"] *)"
+                 % (tool, 'true' if passed else 'false'))
     L.append("")
     # ---------------------------------------------------------------- process: order of the steps
     params, ret, pbody = rs.find_fn(src, 'process')
